@@ -30,11 +30,14 @@ def run(ctx):
     trans += rs.generated
     # 3. disconnect with 0..4 requests blocked in the implementation, released afterwards in every order; bystander
     plans = 0
-    runs = [dict(kinds=["Stat"], partial=False), dict(kinds=["Stat", "Clunk", "Attach"], partial=True)]
+    runs = [dict(kinds=["Stat"], partial=False), dict(kinds=["Stat", "Clunk", "Attach"], partial=True),
+            # slow ConnClosed / FidDestroy callbacks of the victim while the bystander connection is used
+            dict(kinds=["Stat", "Clunk"], partial=False, cbhold=True)]
     for i, rr in enumerate(runs):
         ch = srvfam.consts(ctx, NReq=8, Tags=set(range(1, 9)), Fids={1}, Kinds={"Stat", "Clunk", "Attach"}, InitFids={1}, CanClose=True)
         hc = {"n": 4 if q else 5, "m": 1, "hmax": 3 if q else 4, "groups": False, "close": True, "partial": rr["partial"],
-              "kinds": rr["kinds"], "maxcases": 50 if q else 600, "permmax": 3 if q else 4, "closevariants": True}
+              "kinds": rr["kinds"], "maxcases": (30 if rr.get("cbhold") else 50) if q else 600, "permmax": 3 if q else 4, "closevariants": True,
+              "cbhold": bool(rr.get("cbhold"))}
         tag = "closeheld%d" % i
         hrep, tp, ep, bp = held_run(ctx, ch, hc, tag, 700000 + 10000 * i)
         rj, tl = srvfam.run_trace_validation(ctx, tp, ch, name="Srv9PTrace:" + tag)
@@ -92,7 +95,35 @@ def run(ctx):
     elines += el
     traces += frep.get("cases_total", 0)
     samples += list(frep.get("samples", []))[:1]
+    # 7. the Unix file server: histories of the UfsTree model (opens, creates of every kind incl. hard links that fail, walks)
+    #    executed on a real Ufs; when the client has gone no file of the exported tree may still be open in the server
+    from checks import c16
+    fam = c16.Family(ctx, "C11")
+    ucfg = c16.cfg(InitTree="T2", Names={"a", "b"}, Fids={1, 2}, AttachNames={""}, MaxWalk=1, Ops={"Attach", "Walk", "Open", "Create", "Clunk"},
+                   CreateKinds={"F", "D", "L", "H"}, Perms={420}, Modes={0, 1}, Lens={0}, LinkTargets={"a"}, MaxIds=12)
+    ubeh = fam.simulate("c11ufs", ucfg, num=200 if q else 2500, depth=14)
+    # hard links onto free and onto occupied names, from open and unopened fids: every transition of a small model
+    lcfg = c16.cfg(InitTree="T2", Names={"b"}, Fids={1, 2}, AttachNames={""}, MaxWalk=1, Ops={"Attach", "Walk", "Open", "Create"},
+                   CreateKinds={"H"}, Perms={420}, Modes={0}, Lens={0}, MaxIds=11)
+    lbeh = fam.tour("c11links", lcfg, sample_edges=2500 if q else None)
+    ufs_cases = 0
+    for ubeh_i, only_dotu in ((ubeh, False), (lbeh, True)):
+        if ubeh_i is None:
+            continue
+        ubeh = ubeh_i
+        for dotu in ((True,) if only_dotu else (True, False)):
+            ecfg = {"tree": "T2", "dotu": dotu, "fids": [1, 2], "prop": "C11", "alphabets": [], "max_cases": 0 if dotu else (80 if q else 600)}
+            urep = ctx.go_engine("ufstree", "TestReplay", timeout=780, name="ufs-teardown:dotu=%d" % int(dotu),
+                                 env={"VERIF_BEH": ubeh, "VERIF_CFGJSON": json.dumps(ecfg), "VERIF_TRACE": ctx.path("c11ufs-trace-%d.ndjson" % int(dotu))})
+            if "cases" not in urep:
+                ctx.inconclusive.append("Ufs teardown engine did not report")
+                continue
+            ufs_cases += urep["cases"]
+            for leak in (urep.get("stats", {}).get("fd_leaks") or [])[:3]:
+                ctx.violation("C11:ufs-file-left-open:dotu=%d" % int(dotu), leak, {"engine": "ufstree.TestReplay", "config": "c11ufs", "dotu": dotu})
+    traces += ufs_cases
     cov_d = {
+        "ufs_histories_closed": ufs_cases,
         "states": states, "transitions": trans, "traces_validated_against_impl": traces, "samples": samples[:4],
         "evaluations": traces, "distinct_nontrivial": len(paths) + plans,
         "rule": "tour paths of the close model + one execution per (held subset, release order) disconnect plan + seeded random "
